@@ -457,6 +457,7 @@ RULE_ADDENDA = {
     "C02": "TestSlowReaderWithinTheSharedBuffer: the stalled connection's target is a unix-domain socket that reads nothing (about 200 KiB of kernel buffering) and is sent 0.7-3 MiB in 1-40 writes; meanwhile an established and a freshly opened connection on the same session must complete 2000-byte echo round trips within the bound; after the release everything arrives at the slow target.",
     "C08": "TestBatchesAndConcurrency: the encodings of a batch of 2-12 inputs are kept and decoded only after the whole batch was encoded; or the batch's round trips run in as many goroutines at the same time (150 iterations each).",
     "C10": "TestDomainLengthSweep: tunnel domains of every length 3..150 (thorough ..200) x record types x codecs selectable over that domain x packet payloads {0,1,30,100,139,140,141,170,200,256,300,400,600,1000}.",
+    "C18": "Every documented upstream is connected a second time and must classify as on the first attempt. YAML texts are parsed three times (majority taken; a disagreement is the known finding yaml-decode-nondeterministic), and one certificate-bearing server configuration is parsed 30000 (thorough 150000) times, every parse compared with the first.",
     "C13": "openMany: 2-5 version handshakes issued at the same instant (also as the first step of a history); identifiers must be distinct, must be the ones the server accepted, and every session must work.",
     "C14": "Histories also carry refused requests (none / unknown channel / channel whose target refuses connections; one after every working connection) and 0-6 idle logical connections open when the session ends, whose sockets and goroutines must be released and whose applications must see end-of-stream. Ending outage-and-recovery: the session is cut while the server is unreachable, two attempts fail, then 20 further connections must work and the footprint must return to idle. A fifth of the histories use a directly forwarding listener. The garbage collector is off while connections are counted; anonymous pipes are not counted.",
     "C15": "Second unit (in-package, simulated wire): 6 (thorough 30) listeners, each with 1-3 peers that fall silent after the version handshake / session set-up / a transfer; ConnectionTimeout lowered to 3 s; observed for 72 s (135 s) across the listener's real once-a-minute sweep; a well-behaved client arrives on every listener every few seconds and must complete handshake + 200-byte transfer within 10 s. A DNS peer either keeps polling and is silent on the tunnelled stream only, or stops sending DNS queries altogether once what it sent is acknowledged, leaving the server's answer unfetched; the 5 DNS stall points x {polling, not polling} are enumerated in both tiers in addition to the random draws.",
